@@ -46,7 +46,7 @@ RULE = ("same harness as C06 (bin c06, driver drv_c06), seeds shifted so the two
         "Generic kinds also cover: symmetry-breaking single-variable field terms registered first/middle/last; interactions with constant diagonal "
         "but non-constant matrix (constant flag recomputed from the matrix); constant two-/three-variable interactions; three-variable full matrices "
         "under loop updates; full two-/three-variable matrices symmetric except for one (idx, ~idx) pair placed in every quarter of the index range, "
-        "with the gate oracle that no plain cluster update runs while a term is asymmetric (all 4^n entries compared). Direct swaps use swap_manager_and_state and the SwapManagers trait between hot and fresh samplers. Serial tempering ladders mix a "
+        "with the gate oracle that no plain cluster update runs while a term is asymmetric (all 4^n entries compared). Direct swaps use swap_manager_and_state and the SwapManagers trait between hot and fresh samplers. Tempering pairs in the overflow regime (hot replica with >= 24 operators next to a fresh replica at beta = k*2^50 with h = 0 and/or Gamma = 0: ratio inf*0 = NaN must be rejected). Serial tempering ladders mix a "
         "zero-field replica with field replicas of one sign (>= 30 rounds of [steps; tempering_step], every replica judged with its own Hamiltonian). "
         "Mode zero-word-all-updates: every draw position of recorded heat-bath and Metropolis diagonal sweeps, cluster steps, RVB updates and "
         "free-spin refreshes of both samplers re-run with the word 0 / 2^11 / u64::MAX. Walks include Ising samplers with Gamma = 0 (h != 0 and h = 0) "
